@@ -4,6 +4,7 @@
 //        bytes; the reader is given an exact-size heap copy so that any access
 //        outside "the file's bytes" lands in an ASan red zone.
 #include "common.h"
+#include <zlib.h>
 #include "tablelib.h"
 #include "mergelib.h"
 #include "../sim/seams.h"
@@ -30,7 +31,7 @@ static Plan gen_corrupt(const std::string &prop, const std::string &tier, uint64
 		int nf = 4 + (int)r.below(10);
 		for (int i = 0; i < nf; i++) {
 			uint64_t k = r.below(10);
-			std::string kind = k < 3 ? "bit1" : k < 5 ? "bit2" : k < 7 ? "bit3" : "burst";
+			std::string kind = k < 3 ? "bit1" : k < 5 ? "bit2" : k < 6 ? "bit3" : k < 9 ? "burst" : "crcset";
 			// block selector (mod blocks+1; the last one is the index block), position seed, reach path
 			p.op("flip", { kind, std::to_string(r.chance(1, 4) ? 9999 : r.below(64)), std::to_string(r.below(1u << 30)), std::to_string(r.below(4)) });
 		}
@@ -294,7 +295,21 @@ static RunResult exec_corrupt(const Plan &p)
 			uint64_t lo = db.off + db.len_len, hi = db.payload_off + db.stored_len;	// checksum field + stored bytes
 			Bytes dam = b.file;
 			std::string desc;
-			flip_bits(dam, lo, hi, o.arg(0), r, desc);
+			if (o.arg(0) == "crcset") {
+				// the 4-byte checksum field replaced by a value with a meaning of its own: every such change is a burst of
+				// at most 32 bits inside the field.  (A random burst produces any one of them with probability 2^-32.)
+				uint32_t old = 0; for (int i = 0; i < 4; i++) old |= (uint32_t)(unsigned char)dam[lo + i] << (8 * i);
+				uint32_t other = 0;
+				{ const mfmt::DBlock &ob = b.df.data.empty() ? b.df.index : b.df.data[(size_t)(blk + 1) % b.df.data.size()]; other = ob.crc_stored; }
+				static const char *nm[] = { "all zero", "all ones", "byte-swapped", "plus one", "the checksum of another block", "its complement", "its low 16 bits only", "zlib's CRC-32 of the stored bytes" };
+				int sel = (int)(o.argi(2) % 8);
+				uint32_t nv = sel == 0 ? 0 : sel == 1 ? 0xffffffffu : sel == 2 ? __builtin_bswap32(old) : sel == 3 ? old + 1 : sel == 4 ? other : sel == 5 ? ~old : sel == 6 ? (old & 0xffffu)
+					: (uint32_t)crc32(0, (const Bytef *)dam.data() + db.payload_off, (uInt)db.stored_len);
+				if (nv == old) nv = old ^ 0x80000001u;
+				for (int i = 0; i < 4; i++) dam[lo + i] = (char)(nv >> (8 * i));
+				desc = std::string("checksum field set to ") + nm[sel];
+				res.probes["checksum-field-replaced"]++;
+			} else flip_bits(dam, lo, hi, o.arg(0), r, desc);
 			res.faults["flip-" + o.arg(0)]++;
 			if (blk > 0 && blk < nb) later_block = true;
 			if (blk == nb) res.probes["fault-in-index-block"]++;
